@@ -1,3 +1,4 @@
+import WaVerif.Base.WasmNum
 /-!
 # C03 — the C statement / expression forms that wat2c emits, with C11 semantics
 
@@ -252,12 +253,9 @@ def cunop (op : UnOp) (a : CVal) : Res CVal :=
   | .neg, .u32 x => .ok (.u32 (-x))
   | .neg, .u64 x => .ok (.u64 (-x))
 
-def cctzGo {w : Nat} (x : BitVec w) : Nat → Nat → Nat
-  | 0, acc => acc
-  | n + 1, acc => if x.getLsbD acc then acc else cctzGo x n (acc + 1)
-
-/-- number of trailing zero bits (the argument is non-zero where this is used) -/
-def ctzBV {w : Nat} (x : BitVec w) : BitVec w := BitVec.ofNat w (cctzGo x w 0)
+/-- number of trailing zero bits: the same function the WebAssembly specification side uses (`Wasm.ctz`); the builtin is
+only defined for a non-zero argument -/
+def ctzBV {w : Nat} (x : BitVec w) : BitVec w := Wasm.ctz x
 
 /-- gcc/clang builtins; the parameter types are `unsigned int` / `unsigned long long`, the result type is `int` -/
 def builtin (f : Builtin) (a : CVal) : Res CVal :=
@@ -299,6 +297,12 @@ def look (l : List (Nat × CVal)) (k : Nat) : Option CVal :=
 def litVal (v : Int) : CVal :=
   if -2147483648 ≤ v ∧ v ≤ 2147483647 then .i32 (BitVec.ofInt 32 v) else .i64 (BitVec.ofInt 64 v)
 
+def Res.bind {α β : Type} (r : Res α) (f : α → Res β) : Res β :=
+  match r with
+  | .ok a => f a
+  | .ub => .ub
+  | .stuck => .stuck
+
 def ceval (args : List CVal) (s : St) : CExpr → Res CVal
   | .lit v => if -9223372036854775808 ≤ v ∧ v ≤ 9223372036854775807 then .ok (litVal v) else .stuck
   | .arg i t => match args[i]? with
@@ -310,41 +314,15 @@ def ceval (args : List CVal) (s : St) : CExpr → Res CVal
   | .tmp b => match look s.tmps b with
     | some v => .ok v
     | none => .stuck
-  | .cast t e => match ceval args s e with
-    | .ok v => .ok (castTo t v)
-    | .ub => .ub
-    | .stuck => .stuck
-  | .un op e => match ceval args s e with
-    | .ok v => cunop op v
-    | .ub => .ub
-    | .stuck => .stuck
-  | .bin op a b => match ceval args s a with
-    | .ok va => match ceval args s b with
-      | .ok vb =>
-        if op.isShift then shiftOp op va vb
-        else arith op (conv (uac va.ty vb.ty) va) (conv (uac va.ty vb.ty) vb)
-      | .ub => .ub
-      | .stuck => .stuck
-    | .ub => .ub
-    | .stuck => .stuck
-  | .cond c a b => match ceval args s c with
-    | .ok vc =>
-      if vc.isZero then
-        match ceval args s b with
-        | .ok v => .ok (conv (uac a.ty b.ty) v)
-        | .ub => .ub
-        | .stuck => .stuck
-      else
-        match ceval args s a with
-        | .ok v => .ok (conv (uac a.ty b.ty) v)
-        | .ub => .ub
-        | .stuck => .stuck
-    | .ub => .ub
-    | .stuck => .stuck
-  | .call f e => match ceval args s e with
-    | .ok v => builtin f v
-    | .ub => .ub
-    | .stuck => .stuck
+  | .cast t e => (ceval args s e).bind fun v => .ok (castTo t v)
+  | .un op e => (ceval args s e).bind fun v => cunop op v
+  | .bin op a b => (ceval args s a).bind fun va => (ceval args s b).bind fun vb =>
+      if op.isShift then shiftOp op va vb
+      else arith op (conv (uac va.ty vb.ty) va) (conv (uac va.ty vb.ty) vb)
+  | .cond c a b => (ceval args s c).bind fun vc =>
+      if vc.isZero then (ceval args s b).bind fun v => .ok (conv (uac a.ty b.ty) v)
+      else (ceval args s a).bind fun v => .ok (conv (uac a.ty b.ty) v)
+  | .call f e => (ceval args s e).bind fun v => builtin f v
 
 inductive Outcome
   | ret (v : Option CVal) (m : Mem)     -- normal return (value, final memory)
@@ -411,57 +389,107 @@ def ofBytes (l : LHS) (bs : List (BitVec 8)) : CVal :=
   | .i64 => .i64 (leValue bs)
   | .u64 => .u64 (leValue bs)
 
+/-- continue with the value of an expression, or stop with its failure -/
+def Res.andThen {α : Type} (r : Res α) (k : α → Outcome ⊕ St) : Outcome ⊕ St :=
+  match r with
+  | .ok a => k a
+  | .ub => .inl .ub
+  | .stuck => .inl .stuck
+
+/-- continue with `some`, undefined behaviour on `none` (out-of-bounds object access) -/
+def orUB {α : Type} (o : Option α) (k : α → Outcome ⊕ St) : Outcome ⊕ St :=
+  match o with
+  | some a => k a
+  | none => .inl .ub
+
+def orStuck {α : Type} (o : Option α) (k : α → Outcome ⊕ St) : Outcome ⊕ St :=
+  match o with
+  | some a => k a
+  | none => .inl .stuck
+
+def seqSt (r : Outcome ⊕ St) (k : St → Outcome ⊕ St) : Outcome ⊕ St :=
+  match r with
+  | .inl o => .inl o
+  | .inr s => k s
+
 def cexec (args : List CVal) : Nat → List CStmt → St → Outcome ⊕ St
   | 0, _, _ => .inl .stuck
   | _ + 1, [], s => .inr s
   | fuel + 1, st :: rest, s =>
     match st with
-    | .assign l e => match ceval args s e with
-      | .ok v => cexec args fuel rest (writeL s l v)
-      | .ub => .inl .ub
-      | .stuck => .inl .stuck
-    | .ret e => match ceval args s e with
-      | .ok v => .inl (.ret (some v) s.mem)
-      | .ub => .inl .ub
-      | .stuck => .inl .stuck
+    | .assign l e => (ceval args s e).andThen fun v => cexec args fuel rest (writeL s l v)
+    | .ret e => (ceval args s e).andThen fun v => .inl (.ret (some v) s.mem)
     | .retVoid => .inl (.ret none s.mem)
     | .abort => .inl .trap
-    | .ifThen c body => match ceval args s c with
-      | .ok v =>
+    | .ifThen c body => (ceval args s c).andThen fun v =>
         if v.isZero then cexec args fuel rest s
-        else match cexec args fuel body s with
-          | .inl o => .inl o
-          | .inr s' => cexec args fuel rest s'
-      | .ub => .inl .ub
-      | .stuck => .inl .stuck
+        else seqSt (cexec args fuel body s) fun s' => cexec args fuel rest s'
     | .loadMem dst idx n =>
       if n ≠ lhsBytes dst then .inl .stuck else
-      match ceval args s idx with
-      | .ok v => match idxNat v with
-        | some i => match memRead s.mem i n with
-          | some bs => cexec args fuel rest (writeL s dst (ofBytes dst bs))
-          | none => .inl .ub
-        | none => .inl .ub
-      | .ub => .inl .ub
-      | .stuck => .inl .stuck
+      (ceval args s idx).andThen fun v => orUB (idxNat v) fun i => orUB (memRead s.mem i n) fun bs =>
+        cexec args fuel rest (writeL s dst (ofBytes dst bs))
     | .storeMem idx src n =>
       if n ≠ lhsBytes src then .inl .stuck else
-      match ceval args s idx with
-      | .ok v => match idxNat v with
-        | some i => match readL s src with
-          | some sv => match memWrite s.mem i (leBytes sv.wide n) with
-            | some m' => cexec args fuel rest { s with mem := m' }
-            | none => .inl .ub
-          | none => .inl .stuck
-        | none => .inl .ub
-      | .ub => .inl .ub
-      | .stuck => .inl .stuck
+      (ceval args s idx).andThen fun v => orUB (idxNat v) fun i => orStuck (readL s src) fun sv =>
+        orUB (memWrite s.mem i (leBytes sv.wide n)) fun m' => cexec args fuel rest { s with mem := m' }
+
+def finish : Outcome ⊕ St → Outcome
+  | .inl o => o
+  | .inr _ => .stuck       -- falling off the end of the function body is not modelled
 
 /-- run a translated function on argument values and a memory; falling off the end is not modelled -/
 def crun (f : CFunc) (args : List CVal) (m : Mem) : Outcome :=
   if args.map CVal.ty ≠ f.params then .stuck else
-  match cexec args 64 f.body { regs := [], tmps := [], mem := m } with
-  | .inl o => o
-  | .inr _ => .stuck
+  finish (cexec args 64 f.body { regs := [], tmps := [], mem := m })
+
+/-! ## distribution of the evaluator's plumbing over `if` (used by the symbolic execution in the proofs) -/
+theorem Res.bind_ok {α β : Type} (a : α) (f : α → Res β) : (Res.ok a).bind f = f a := rfl
+theorem Res.bind_ub {α β : Type} (f : α → Res β) : (Res.ub : Res α).bind f = .ub := rfl
+theorem Res.bind_stuck {α β : Type} (f : α → Res β) : (Res.stuck : Res α).bind f = .stuck := rfl
+theorem Res.map_ok {α β : Type} (a : α) (f : α → β) : (Res.ok a).map f = .ok (f a) := rfl
+theorem Res.map_ub {α β : Type} (f : α → β) : (Res.ub : Res α).map f = .ub := rfl
+theorem Res.map_stuck {α β : Type} (f : α → β) : (Res.stuck : Res α).map f = .stuck := rfl
+theorem Res.andThen_ok {α : Type} (a : α) (k : α → Outcome ⊕ St) : (Res.ok a).andThen k = k a := rfl
+theorem Res.andThen_ub {α : Type} (k : α → Outcome ⊕ St) : (Res.ub : Res α).andThen k = .inl .ub := rfl
+theorem Res.andThen_stuck {α : Type} (k : α → Outcome ⊕ St) : (Res.stuck : Res α).andThen k = .inl .stuck := rfl
+theorem finish_inl (o : Outcome) : finish (.inl o) = o := rfl
+theorem finish_inr (s : St) : finish (.inr s) = .stuck := rfl
+theorem seqSt_inl (o : Outcome) (k : St → Outcome ⊕ St) : seqSt (.inl o) k = .inl o := rfl
+theorem seqSt_inr (s : St) (k : St → Outcome ⊕ St) : seqSt (.inr s) k = k s := rfl
+theorem orUB_some {α : Type} (a : α) (k : α → Outcome ⊕ St) : orUB (some a) k = k a := rfl
+theorem orUB_none {α : Type} (k : α → Outcome ⊕ St) : orUB (none : Option α) k = .inl .ub := rfl
+theorem orStuck_some {α : Type} (a : α) (k : α → Outcome ⊕ St) : orStuck (some a) k = k a := rfl
+theorem orStuck_none {α : Type} (k : α → Outcome ⊕ St) : orStuck (none : Option α) k = .inl .stuck := rfl
+
+section ite
+variable {c : Prop} [Decidable c]
+theorem Res.map_ite {α β : Type} (a b : Res α) (f : α → β) : (if c then a else b).map f = if c then a.map f else b.map f := by
+  split <;> rfl
+theorem orUB_ite {α : Type} (a b : Option α) (k : α → Outcome ⊕ St) : orUB (if c then a else b) k = if c then orUB a k else orUB b k := by
+  split <;> rfl
+theorem Res.bind_ite {α β : Type} (a b : Res α) (f : α → Res β) : (if c then a else b).bind f = if c then a.bind f else b.bind f := by
+  split <;> rfl
+theorem Res.andThen_ite {α : Type} (a b : Res α) (k : α → Outcome ⊕ St) :
+    (if c then a else b).andThen k = if c then a.andThen k else b.andThen k := by
+  split <;> rfl
+theorem finish_ite (a b : Outcome ⊕ St) : finish (if c then a else b) = if c then finish a else finish b := by
+  split <;> rfl
+theorem seqSt_ite (a b : Outcome ⊕ St) (k : St → Outcome ⊕ St) : seqSt (if c then a else b) k = if c then seqSt a k else seqSt b k := by
+  split <;> rfl
+theorem conv_ite (t : CTy) (a b : CVal) : conv t (if c then a else b) = if c then conv t a else conv t b := by
+  split <;> rfl
+theorem castTo_ite (t : CastTy) (a b : CVal) : castTo t (if c then a else b) = if c then castTo t a else castTo t b := by
+  split <;> rfl
+theorem ty_ite (a b : CVal) : (if c then a else b).ty = if c then a.ty else b.ty := by
+  split <;> rfl
+theorem isZero_ite (a b : CVal) : (if c then a else b).isZero = if c then a.isZero else b.isZero := by
+  split <;> rfl
+theorem wide_ite (a b : CVal) : (if c then a else b).wide = if c then a.wide else b.wide := by
+  split <;> rfl
+theorem resok_ite {α : Type} (a b : α) : (Res.ok (if c then a else b)) = if c then Res.ok a else Res.ok b := by
+  split <;> rfl
+theorem writeL_ite (s : St) (l : LHS) (a b : CVal) : writeL s l (if c then a else b) = if c then writeL s l a else writeL s l b := by
+  split <;> rfl
+end ite
 
 end WaVerif.C03
